@@ -812,7 +812,7 @@ class Sim(object):
             for o in st["obs"]:
                 lines.append(o if o.startswith("t-") else "t-exc " + o[4:] if o.startswith("exc ") else "t-ob " + o)
             if st["dump"] is not None:
-                lines.append("t-dump " + six(st["dump"]))
+                lines.append("t-dump " + six(st["dump"]) + " " + pmeta(st["dump"]))
                 lines.append("t-timers " + CC.lst("%s@%s" % (nm, rat(Fraction(t).limit_denominator(10**9))) for t, nm in st["timers"]))
         for o in self.stray:
             if o.startswith("exc "):
@@ -827,6 +827,10 @@ class Sim(object):
 def six(dump):
     d = {l.split(" ", 1)[0]: l.split(" ", 1)[1] for l in dump}
     return " ".join(d[k] for k in ("brokers", "clients", "t2b", "parts", "errs", "groups"))
+
+
+def pmeta(dump):
+    return [l.split(" ", 1)[1] for l in dump if l.startswith("pmeta ")][0]
 
 
 def model_obs(st):
